@@ -32,7 +32,7 @@ def sql_cases(tier, seed):
             elif r < 0.84:
                 ops.append("setmax %d" % rng.choice([0, 1, 2, 3, 5, 100]))
             elif r < 0.88:
-                ops.append("reopen")
+                ops.append(rng.choice(["reopen", "reopen", "load"]))      # (load: History::load of its own path on the open object)
             elif r < 0.90:
                 ops.append("reopen2 %d 0" % (rng.random() < 0.3))     # the same database under the always-add policy from now on
             elif r < 0.915:
@@ -185,7 +185,7 @@ def c20_corr(res, exe, driver, tier, seed, tmp):
                 if out == "u":
                     igd = t[1]
                 stats["policy_switches"] = stats.get("policy_switches", 0) + 1
-            elif t[0] in ("reopen", "reopen2"):
+            elif t[0] in ("reopen", "reopen2", "load"):
                 stats["reopens"] += 1
                 session_open = False
                 cur_max = int(mx)          # the new object is built from the same Config
